@@ -3,9 +3,13 @@ package test
 // Witness for finding F4 (property C14): a hedge policy composed outside a retry policy runs its attempts on separate
 // goroutines through the *same* retry executor closure. That executor keeps failedAttempts / retriesExceeded /
 // lastDelay without any lock, so overlapping attempts race on them. Run under -race.
+//
+// The user function makes the overlap certain instead of likely: the first invocation of each execution waits until a
+// hedge has started as well, then both fail, and both goroutines update the shared retry executor.
 
 import (
 	"errors"
+	"sync/atomic"
 	"testing"
 	"time"
 
@@ -16,11 +20,17 @@ import (
 
 func TestFsvWitnessF4(t *testing.T) {
 	boom := errors.New("boom")
-	for i := 0; i < 100; i++ {
-		rp := retrypolicy.Builder[any]().WithMaxRetries(3).Build()
-		hp := hedgepolicy.BuilderWithDelay[any](50 * time.Microsecond).WithMaxHedges(2).Build()
+	for i := 0; i < 20; i++ {
+		var started atomic.Int32
+		rp := retrypolicy.Builder[any]().WithMaxRetries(2).Build()
+		hp := hedgepolicy.BuilderWithDelay[any](100 * time.Microsecond).WithMaxHedges(1).Build()
 		_, _ = failsafe.NewExecutor[any](hp, rp).Get(func() (any, error) {
-			time.Sleep(200 * time.Microsecond)
+			if started.Add(1) == 1 {
+				deadline := time.Now().Add(200 * time.Millisecond)
+				for started.Load() < 2 && time.Now().Before(deadline) {
+					time.Sleep(20 * time.Microsecond)
+				}
+			}
 			return nil, boom
 		})
 	}
